@@ -175,6 +175,14 @@ fn load_units_from_dir(
         let path = file.path();
         let name = file.file_name();
 
+        if path.as_os_str().to_str().is_none() {
+            results.push(Err(RuntimeError::Io(
+                format!("Error loading {path:?}"),
+                io::Error::new(io::ErrorKind::InvalidData, "path is not valid UTF-8"),
+            )));
+            continue;
+        }
+
         if seen.contains(&name) {
             continue;
         }
